@@ -35,6 +35,7 @@ Record digest := mkdigest {
   g_mcuopen : N;
   g_mcupending : N;
   g_counts : list N;     (* per configured backend: sessions counted against its limit (Backend.Len()) *)
+  g_transient : list ((N * N) * list (N * N));   (* per room: its transient data, key -> value *)
 }.
 
 (* ---- equality tests ---- *)
@@ -53,6 +54,13 @@ Fixpoint list_eqb {A} (eq : A -> A -> bool) (a b : list A) : bool :=
   match a, b with
   | [], [] => true
   | x :: r, y :: s => eq x y && list_eqb eq r s
+  | _, _ => false
+  end.
+Definition tmsg_eqb (a b : tmsg) : bool :=
+  match a, b with
+  | TInit d, TInit d' => list_eqb pair_eqb d d'
+  | TSet k v o, TSet k' v' o' => N.eqb k k' && N.eqb v v' && optN_eqb o o'
+  | TRemove k o, TRemove k' o' => N.eqb k k' && optN_eqb o o'
   | _, _ => false
   end.
 Definition smsg_eqb (a b : smsg) : bool :=
@@ -74,7 +82,7 @@ Definition smsg_eqb (a b : smsg) : bool :=
   | SPart a, SPart a' => N.eqb a a'
   | SPartL a r l, SPartL a' r' l' => N.eqb a a' && N.eqb r r' && list_eqb N.eqb l l'
   | SFlags s f, SFlags s' f' => N.eqb s s' && N.eqb f f'
-  | STransient k key, STransient k' key' => N.eqb k k' && N.eqb key key'
+  | STransient t, STransient t' => tmsg_eqb t t'
   | SDialout r, SDialout r' => N.eqb r r'
   | SOther k, SOther k' => N.eqb k k'
   | _, _ => false
@@ -94,6 +102,7 @@ Definition canon (m : smsg) : smsg :=
   match m with
   | SJoin l => SJoin (sort_join l)
   | SLeave l => SLeave (nsort l)
+  | STransient (TInit d) => STransient (TInit (sort_join d))     (* the whole data: sorted by key *)
   | _ => m
   end.
 
@@ -192,6 +201,8 @@ Definition sd_eqb (a b : sd) : bool :=
 Definition room_entry_eqb (a b : (N * N) * list N * list N) : bool :=
   let '(k, m, i) := a in let '(k', m', i') := b in
   pair_eqb k k' && list_eqb N.eqb (nsort m) (nsort m') && list_eqb N.eqb (nsort i) (nsort i').
+Definition tdata_eqb (a b : (N * N) * list (N * N)) : bool :=
+  pair_eqb (fst a) (fst b) && list_eqb pair_eqb (sort_join (snd a)) (sort_join (snd b)).
 Definition triple_eqb (a b : N * N * N) : bool :=
   let '(x, y, z) := a in let '(x', y', z') := b in N.eqb x x' && N.eqb y y' && N.eqb z z'.
 
@@ -211,7 +222,8 @@ Definition digest_of (h : hub) : digest :=
            (N.of_nat (length h.(h_mcuopen)))
            (N.of_nat (length h.(h_mcupending)))
            (map (fun b => N.of_nat (length (match aget h.(h_counted) b with Some l => l | None => [] end)))
-                (map N.of_nat (seq 0 (N.to_nat h.(h_nb))))).
+                (map N.of_nat (seq 0 (N.to_nat h.(h_nb)))))
+           (map (fun e => (fst e, (snd e).(r_transient))) h.(h_rooms)).
 
 Definition digest_match (a b : digest) : bool :=
   mset_eqb sd_eqb a.(g_sessions) b.(g_sessions) &&
@@ -224,7 +236,8 @@ Definition digest_match (a b : digest) : bool :=
   N.eqb a.(g_nbackendroom) b.(g_nbackendroom) && N.eqb a.(g_nroom) b.(g_nroom) &&
   N.eqb a.(g_nuser) b.(g_nuser) && N.eqb a.(g_nsession) b.(g_nsession) &&
   N.eqb a.(g_mcuopen) b.(g_mcuopen) && N.eqb a.(g_mcupending) b.(g_mcupending) &&
-  list_eqb N.eqb a.(g_counts) b.(g_counts).
+  list_eqb N.eqb a.(g_counts) b.(g_counts) &&
+  mset_eqb tdata_eqb a.(g_transient) b.(g_transient).
 
 (* which part of the digest differs (for the report): 1..15 *)
 Definition digest_diff (a b : digest) : N :=
@@ -244,7 +257,8 @@ Definition digest_diff (a b : digest) : N :=
   else if negb (N.eqb a.(g_nsession) b.(g_nsession)) then 14
   else if negb (N.eqb a.(g_mcuopen) b.(g_mcuopen)) then 15
   else if negb (N.eqb a.(g_mcupending) b.(g_mcupending)) then 16
-  else if negb (list_eqb N.eqb a.(g_counts) b.(g_counts)) then 17 else 0.
+  else if negb (list_eqb N.eqb a.(g_counts) b.(g_counts)) then 17
+  else if negb (mset_eqb tdata_eqb a.(g_transient) b.(g_transient)) then 18 else 0.
 
 (* ---- cases ---- *)
 Definition trace := list (op * obs * digest).
